@@ -19,12 +19,14 @@
    length, nested bindings naming a signal of the sub-system), then an assignment satisfies the document exactly
    when it satisfies every component, every signal's auxiliary sequence is the signal's reverse complement, and
    every port bound to a signal equals the signal - or its reverse complement when the binding is starred - at
-   every depth.  Both hypotheses are booleans (sys_okb, des_doc_okb; sound by C03_hypotheses_sound) that the
-   extracted model evaluates on every system the correspondence check loads.
-   NOT proved: that every system load_file accepts passes sys_okb; the partition oracle of the
-   correspondence check decides the equivalence on the real .des independently per case. *)
+   every depth.  Well-formedness is a theorem about whatever load_file accepts (LoadWf: an invariant of run_stmts
+   over the bindings), so for every document the .des back-end compiles the only hypothesis left is that no name
+   is defined twice (C03_compiled_document_equivalent); both hypotheses also exist as booleans (sys_okb,
+   des_doc_okb; sound by C03_hypotheses_sound) that the extracted model evaluates on every system the
+   correspondence check loads.  The partition oracle of the correspondence check decides the equivalence on
+   the real .des independently per case. *)
 From Coq Require Import List String Ascii Arith.
-From PC Require Import Comp.Syntax Comp.Compile Comp.Denote Comp.EmitProofs Design.Designer Sys.System Sys.Des Sys.DesProofs Sys.SignalProofs Sys.DesEquiv Sys.DesSys.
+From PC Require Import Comp.Syntax Comp.Compile Comp.Denote Comp.EmitProofs Design.Designer Sys.System Sys.Des Sys.DesProofs Sys.SignalProofs Sys.DesEquiv Sys.DesSys Sys.LoadWf.
 Import ListNotations.
 
 Theorem C03_assignment_rereads_partial : forall c, WF c -> forall l, (forall x, In x l -> ahas (c_bases c) (fst x) = true) ->
@@ -91,3 +93,17 @@ Theorem C03_system_nonvacuous : sys_okb 12 demo_system = true /\ des_doc_okb (em
   List.length (emit_des_obj 12 demo_system) = 16.
 Proof. exact demo_system_hypotheses. Qed.
 Print Assumptions C03_system_nonvacuous.
+
+(* whatever the .des back-end compiles, at any depth of nesting: if no name is defined twice, the document says
+   exactly what the components, the signals and their bindings say *)
+Theorem C03_compiled_document_equivalent : forall fs includes ctr basename args lines ctr',
+  compile_des fs includes ctr basename args = OK (lines, ctr') ->
+  NoDup (map fst (des_env lines)) -> NoDup (dstruct_names lines) ->
+  exists o, load_file fs includes 12 ctr basename args "" "." = OK (o, ctr') /\ forall v, des_sat v lines <-> sys_sat v 12 o.
+Proof. exact compiled_des_system_equiv. Qed.
+Print Assumptions C03_compiled_document_equivalent.
+
+Theorem C03_loaded_systems_well_formed : forall fs includes fuel ctr b args prefix path o ctr',
+  load_file fs includes fuel ctr b args prefix path = OK (o, ctr') -> sys_wf fuel o.
+Proof. intros fs includes fuel ctr b args prefix path o ctr' H. exact (proj1 (load_file_sys_wf fs includes fuel ctr b args prefix path o ctr' H)). Qed.
+Print Assumptions C03_loaded_systems_well_formed.
